@@ -122,7 +122,10 @@ def meta_crosscheck():
 
 # ---------------------------------------------------------------------------------------------------------- values
 TZS = [None, datetime.timezone.utc, datetime.timezone(datetime.timedelta(hours=5, minutes=30)),
-       datetime.timezone(datetime.timedelta(hours=-11)), datetime.timezone(datetime.timedelta(hours=13, minutes=59))]
+       datetime.timezone(datetime.timedelta(hours=-11)), datetime.timezone(datetime.timedelta(hours=13, minutes=59)),
+       datetime.timezone(datetime.timedelta(hours=14)), datetime.timezone(datetime.timedelta(hours=-14)),
+       datetime.timezone(datetime.timedelta(hours=-12)), datetime.timezone(datetime.timedelta(hours=12, minutes=1)),
+       datetime.timezone(datetime.timedelta(minutes=-1))]
 
 STR_PLAIN = ["a", "abc", "Some Text", "x" * 40, "ÄÖÜ straße", "日本語", "a b  c"]
 STR_JSON = ['quote"inside', "back\\slash", "line\nbreak", "tab\there", "cr\rhere", "\U0001F600 astral", "/slash",
@@ -261,6 +264,95 @@ class Gen:
                 c.append("")
             return r.choice(c)
         raise TypeError(t)
+
+    # ---- a deterministic sweep over the value pools (no random choice: every edge value occurs in every run)
+    def xsd_candidates(self, t):
+        """edge values of XSD type t, in a fixed order"""
+        av = self.avoid
+        tzs = [None] if "tz" in av else TZS
+        us = [0] if "sub_ms" in av else [0, 1, 999999, 500000]
+        Y = [1, 999, 2020, 9999]
+        if t is relativedelta:
+            c = [relativedelta(years=1, months=2, days=3, hours=4, minutes=5, seconds=6, microseconds=7),
+                 relativedelta(days=1), relativedelta(months=-5, days=-2), relativedelta(seconds=30),
+                 relativedelta(years=10000), relativedelta(microseconds=1), relativedelta(years=-1), relativedelta(months=11),
+                 relativedelta(hours=23, minutes=59), relativedelta(seconds=-59, microseconds=-999999),
+                 relativedelta(days=400, hours=25)]
+            return c + ([] if "zero_duration" in av else [relativedelta()])
+        if t is datetime.datetime:
+            return [datetime.datetime(Y[i % 4], 1 + i % 12, 1 + (i * 7) % 28, i % 24, (i * 13) % 60, (i * 17) % 60,
+                                      us[i % len(us)], tzinfo=tz) for i, tz in enumerate(tzs)] + \
+                   [datetime.datetime(2024, 2, 29, 23, 59, 59, us[-1 % len(us)]), datetime.datetime(1, 1, 1, 0, 0, 0)]
+        if t is dt.Date:
+            return [dt.Date(Y[i % 4], 1 + i % 12, 1 + (i * 7) % 28, tz) for i, tz in enumerate(tzs)] + [dt.Date(2024, 2, 29)]
+        if t is datetime.time:
+            return [datetime.time(i % 24, (i * 13) % 60, (i * 17) % 60, us[i % len(us)], tzinfo=tz)
+                    for i, tz in enumerate(tzs)] + [datetime.time(0, 0, 0), datetime.time(23, 59, 59, us[-1])]
+        if t is dt.GYearMonth:
+            return [dt.GYearMonth(Y[i % 4], 1 + i % 12, tz) for i, tz in enumerate(tzs)]
+        if t is dt.GYear:
+            return [dt.GYear(Y[i % 4], tz) for i, tz in enumerate(tzs)]
+        if t is dt.GMonthDay:
+            return [dt.GMonthDay(1 + i % 12, 1 + (i * 7) % 28, tz) for i, tz in enumerate(tzs)] + [dt.GMonthDay(2, 29), dt.GMonthDay(12, 31)]
+        if t is dt.GMonth:
+            return [dt.GMonth(1 + i % 12, tz) for i, tz in enumerate(tzs)]
+        if t is dt.GDay:
+            return [dt.GDay(1 + (i * 10) % 31, tz) for i, tz in enumerate(tzs)] + [dt.GDay(31)]
+        if t is bool:
+            return [True, False]
+        if t is dt.Base64Binary:
+            return [dt.Base64Binary(b) for b in ([] if "empty_strings" in av else [b""]) + [b"\x00\xff", b"hello world", bytes(range(256)), b"a", b"ab"]]
+        if t is dt.HexBinary:
+            return [dt.HexBinary(b) for b in ([] if "empty_strings" in av else [b""]) + [b"\x00\xff", b"abc"]]
+        if t is dt.Float:
+            return [dt.Float(x) for x in (0.0, 1.5, -2.25, 1e30, -0.0)]
+        if t is float:
+            c = [0.0, -0.0, 1.5, 1e300, 5e-324, 0.1, 2.0 ** 53 + 2, -1.7976931348623157e308, 1e22, 1e-7, 123456789.125]
+            return c + ([] if "nan" in av else [math.nan, math.inf, -math.inf])
+        if t is decimal.Decimal:
+            return [decimal.Decimal(x) for x in ("0", "1.10", "-123456789012345678901234567890.000000001", "0.000001", "100", "-0.5",
+                                                 "1E+5", "1E-7", "2.50E+3", "0.00", "-0", "1234567890123456789012345678.9",
+                                                 "0." + "0" * 30 + "123456789012345678901234567890123", "9" * 60)]
+        if t in self.INT_BOUNDS:
+            lo, hi = self.INT_BOUNDS[t]
+            return [t(x) for x in dict.fromkeys([lo, hi, lo + 1, hi - 1] + [x for x in (0, 1, -1, 42) if lo <= x <= hi])]
+        if t is dt.AnyURI:
+            return [dt.AnyURI(x) for x in ("http://example.org/a#b", "urn:x:y", "file:///tmp/a%20b", "rel/path")]
+        if t is dt.NormalizedString:
+            return [dt.NormalizedString(x) for x in (["a b"] if "empty_strings" in av else ["", "a b", " lead", "trail "])]
+        if t is str:
+            pool = list(STR_PLAIN) + (STR_JSON if self.strings in ("json", "all") else []) + (STR_XML if self.strings in ("xml", "all") else [])
+            return pool + ([] if "empty_strings" in av else [""])
+        raise TypeError(t)
+
+    INT_BOUNDS = {int: (-2 ** 70, 2 ** 70), dt.Long: (-2 ** 63, 2 ** 63 - 1), dt.Int: (-2 ** 31, 2 ** 31 - 1),
+                  dt.Short: (-2 ** 15, 2 ** 15 - 1), dt.Byte: (-128, 127), dt.NonPositiveInteger: (-2 ** 70, 0),
+                  dt.NegativeInteger: (-2 ** 70, -1), dt.NonNegativeInteger: (0, 2 ** 70),
+                  dt.PositiveInteger: (1, 2 ** 70), dt.UnsignedLong: (0, 2 ** 64 - 1), dt.UnsignedInt: (0, 2 ** 32 - 1),
+                  dt.UnsignedShort: (0, 2 ** 16 - 1), dt.UnsignedByte: (0, 255)}
+
+    def sweep_store(self):
+        """one Submodel in which every candidate value of every XSD type occurs as a Property value, as Range min / max, as
+        a Qualifier value and as an Extension value (the four typed holders of the metamodel)"""
+        types = list(dict.fromkeys(list(dt.XSD_TYPE_NAMES) + [dt.UnsignedByte]))
+        if "unsigned_byte" in self.avoid:
+            types = [t for t in types if t is not dt.UnsignedByte]
+        elems, quals, exts = [], [], []
+        for ti, t in enumerate(types):
+            cands = self.xsd_candidates(t)
+            for j, v in enumerate(cands):
+                elems.append(model.Property(f"p{ti}_{j}", t, v))
+                if "falsy_qualifier_value" in self.avoid and not v:
+                    continue
+                quals.append(model.Qualifier(f"q{ti}_{j}", t, v))
+                exts.append(model.Extension(f"e{ti}_{j}", t, v))
+            elems.append(model.Range(f"r{ti}", t, cands[0], cands[-1]))
+            elems.append(model.Range(f"rmin{ti}", t, cands[len(cands) // 2], None))
+        holder = model.Capability("holder", qualifier=quals, extension=exts)
+        sm = model.Submodel("https://example.org/sm/sweep", submodel_element=elems + [holder])
+        st = model.DictObjectStore()
+        st.add(sm)
+        return st
 
     # ---- references
     def key(self, first=True, model_ref=False):
@@ -695,7 +787,17 @@ def canon_leaf(v):
     if isinstance(v, float):
         return [t.__name__, "nan" if v != v else float(v).hex()]
     if t is decimal.Decimal:
-        return ["decimal", str(v.normalize()) if v == v.to_integral_value() else str(v.normalize())]
+        # exact value (Decimal.normalize() would round to the context precision of 28 digits)
+        if not v.is_finite():
+            return ["decimal", str(v)]
+        sign, digits, exp = v.as_tuple()
+        digits = list(digits)
+        while len(digits) > 1 and digits[-1] == 0:
+            digits.pop()
+            exp += 1
+        if digits == [0]:
+            sign, exp = 0, 0
+        return ["decimal", ("-" if sign else "") + "".join(map(str, digits)) + (f"E{exp}" if exp else "")]
     if isinstance(v, int):
         return [t.__name__, int(v)]
     if isinstance(v, str):
